@@ -15,6 +15,7 @@
 //   team new S | fromvec S <mep slot>* | sig S | copy D S | mutate S <pgm‰> | xover D A B
 //        load D S | loadbad D S <cut>
 //   murmur <hex>                             -> hash128 of the bytes
+//   combine <a0> <a1> <h0> <h1>              -> hash_t(a0, a1).combine(hash_t(h0, h1))
 //
 // <gene> = <opcode>:<parameter bits>:<arg>,<arg>…  (`-` for no arguments)
 //
@@ -108,8 +109,14 @@ std::string mep_content(const i_mep &m)
   return r;
 }
 
-// own text serialisation in the format load() reads (exact parameters)
-std::string mep_text(const i_mep &m)
+bool par_gene(const gene &g)
+{
+  return g.sym->terminal() && terminal::cast(g.sym)->parametric();
+}
+
+// own text serialisation in the format load() reads (exact parameters).  Text cannot carry
+// inf / NaN: with `placeholder` such parameters are written as 0 (see mep_rebuild)
+std::string mep_text(const i_mep &m, bool placeholder = false)
 {
   std::ostringstream o;
   o << m.age() << '\n' << m.size() << ' ' << m.categories() << '\n';
@@ -118,8 +125,9 @@ std::string mep_text(const i_mep &m)
     {
       const gene &g(m[{i, c}]);
       o << g.sym->opcode();
-      if (g.sym->terminal() && terminal::cast(g.sym)->parametric())
-        o << ' ' << std::setprecision(17) << g.par;
+      if (par_gene(g))
+        o << ' ' << std::setprecision(17)
+          << (placeholder && !std::isfinite(g.par) ? 0.0 : g.par);
       for (std::size_t a(0); a < g.args.size(); ++a) o << ' ' << g.args[a];
       o << '\n';
     }
@@ -129,9 +137,19 @@ std::string mep_text(const i_mep &m)
 
 bool mep_rebuild(const i_mep &m, i_mep *out)
 {
-  std::istringstream in(mep_text(m));
+  bool finite(true);
+  for (index_t i(0); i < m.size(); ++i)
+    for (category_t c(0); c < m.categories(); ++c)
+      finite = finite && (!par_gene(m[{i, c}]) || std::isfinite(m[{i, c}].par));
+
+  std::istringstream in(mep_text(m, !finite));
   i_mep f;
   if (!f.load(in, prob.sset)) return false;
+  if (!finite)   // non-finite parameters are installed gene by gene in the fresh object
+    for (index_t i(0); i < m.size(); ++i)
+      for (category_t c(0); c < m.categories(); ++c)
+        if (par_gene(m[{i, c}]) && !std::isfinite(m[{i, c}].par))
+          f = f.replace({i, c}, m[{i, c}]);
   *out = f;
   return true;
 }
@@ -358,6 +376,12 @@ std::string handle(const std::vector<std::string> &t)
   {
     const std::string b(verif::unhex(t.at(1)));
     return sig_s(vita::hash::hash128(b.data(), b.size()));
+  }
+  if (k == "combine")   // hash_t(a0, a1).combine(hash_t(h0, h1))
+  {
+    hash_t a(std::stoull(t.at(1)), std::stoull(t.at(2)));
+    a.combine(hash_t(std::stoull(t.at(3)), std::stoull(t.at(4))));
+    return sig_s(a);
   }
   const std::string &op(t.at(1));
   const auto pgm = [&](const std::string &s) { return std::stoul(s) / 1000.0; };
